@@ -112,6 +112,7 @@ type Exec struct {
 	concrete  map[string]string // fixed nondet values (selftest / concrete mode)
 	PanicsAreViolations bool
 	BudgetAsViolation   bool
+	MaxPreempt          int
 	Summaries map[*ssa.Function]*ssa.Function
 }
 
